@@ -53,6 +53,7 @@ func (x *X) obs(o Obs) {
 	o.Step = x.S.Steps
 	o.Thread = vsched.CurName()
 	x.Log = append(x.Log, o)
+	vsched.Observe(o.Kind, o.What, o.Arg, o.Err, o.Name, o.Op, o.From, o.List, o.W)
 	x.S.Note(o.Kind + " " + o.What + " " + o.Arg + " " + o.Err + " " + o.Name + fmt.Sprint(o.Op, o.List))
 }
 
@@ -102,6 +103,7 @@ func (x *X) NewWatcher(buf int) (*fsnotify.Watcher, error) {
 	if err == nil {
 		idx = len(x.Watchers)
 		x.Watchers = append(x.Watchers, w)
+		vsched.RegisterTree(w, fmt.Sprintf("W%d", idx)) // stable names for every mutex and channel of this Watcher
 		vsched.NameChan(w.Events, fmt.Sprintf("Events%d", idx))
 		vsched.NameChan(w.Errors, fmt.Sprintf("Errors%d", idx))
 		// the notification descriptor must not be inheritable: a child process started while the Watcher is
@@ -444,3 +446,50 @@ func (x *X) EndCall(id int, what, arg string, w int, err string, list []string) 
 
 // FS notes a filesystem operation of the harness.
 func (x *X) FS(what, arg string, err error) { x.fs(what, arg, err) }
+
+// StateKey is the harness's part of the global state key: kernel queue lengths
+// and closed-ness of every inotify descriptor of this execution, fault-script
+// progress, the library's tables, the harness's own descriptors.
+func (x *X) StateKey() string {
+	var b strings.Builder
+	vs := vsys.Get()
+	b.WriteString(vs.KeyPart())
+	for i, w := range x.Watchers {
+		t := fsnotify.VerifTables(w, false)
+		var ents []string
+		for k, v := range t.Wd {
+			ents = append(ents, fmt.Sprintf("%d={%d %q %#x}", k, v.Wd, v.Path, v.Flags))
+		}
+		for p, wd := range t.Path {
+			ents = append(ents, fmt.Sprintf("%q->%d", p, wd))
+		}
+		sort.Strings(ents)
+		fmt.Fprintf(&b, "W%d[%s]ring%v/%d;", i, strings.Join(ents, " "), ringShape(t), t.CookieIndex)
+	}
+	var ls []string
+	for l := range x.fds {
+		ls = append(ls, l)
+	}
+	sort.Strings(ls)
+	b.WriteString(strings.Join(ls, ","))
+	return b.String()
+}
+
+// ringShape renders the cookie ring with cookies replaced by their rank (only equality matters).
+func ringShape(t fsnotify.VerifTablesSnapshot) []string {
+	rank := map[uint32]int{}
+	var out []string
+	for _, c := range t.Cookies {
+		if c.Cookie == 0 && c.Path == "" {
+			out = append(out, "-")
+			continue
+		}
+		r, ok := rank[c.Cookie]
+		if !ok {
+			r = len(rank)
+			rank[c.Cookie] = r
+		}
+		out = append(out, fmt.Sprintf("%d:%s", r, c.Path))
+	}
+	return out
+}
